@@ -130,6 +130,11 @@ func (s *JSchema) AddType(name string, sc schema.Schema) (err error) {
 			return errs.ErrLoadError.F(err)
 		}
 
+		if typ.Inner.RootNode() == nil {
+			// A type without a value cannot be checked or referenced.
+			return kit.NewJSchemaError(typ.File, errs.ErrEmptyType.F(name))
+		}
+
 		s.Inner.AddNamedType(name, typ.Inner, s.File, 0)
 		s.UserTypeCollection[name] = typ
 	case *regex.RSchema:
